@@ -18,7 +18,7 @@ VALUES = {
 }
 SLOTS = ["time", "measurement", "tag_key", "tag_value", "field_key", "field_value", "tags", "fields"]
 ENTRIES = ["constructor", "setter", "insert", "update_static", "update_callable", "update_callable_indexed",
-           "update_callable_same_key"]
+           "update_callable_same_key", "update_callable_later_point", "update_static_pairs"]
 
 
 def hashable(v):
@@ -129,6 +129,32 @@ class Family:
                         db.update_all(tags=lambda old, val=v: {"k": val})
                     else:
                         db.update_all(fields=lambda old, val=v: {"k": val, "z": (val if isinstance(val, bool) and not val else 0)})
+                elif entry == "update_callable_later_point":
+                    # the callable answers a valid value for the first point and the value under test for a later
+                    # one — for True/False the valid value is the equal number 1/0 (same hash), so a validation
+                    # remembered per distinct result must not let the bool through
+                    if slot not in ("tag_value", "field_value"):
+                        return "skip", None
+                    db.insert(tf.Point(time=T, measurement="m", tags={"k": "x", "n": "1"}, fields={"k": 1, "n": 1}))
+                    db.insert(tf.Point(time=T, measurement="m", tags={"k": "x", "n": "2"}, fields={"k": 1, "n": 2}))
+                    if slot == "tag_value":
+                        db.update_all(tags=lambda old, val=v: {"k": ("s" if old["n"] == "1" else val)})
+                    else:
+                        good = (1 if v is True else 0 if v is False else 5)
+                        db.update_all(fields=lambda old, val=v, good=good: {"k": (good if old["n"] == 1 else val), "level": 1})
+                elif entry == "update_static_pairs":
+                    # a static argument must be a mapping: an iterable of pairs is not one (and is not validated
+                    # like one), whatever it carries
+                    if slot in ("time", "measurement", "tags", "fields"):
+                        return "skip", None
+                    db.insert(base)
+                    pairs = {"tag_key": [(v, "x")], "tag_value": [("k", v)], "field_key": [(v, 1)], "field_value": [("k", v)]}[slot]
+                    forms = [pairs, tuple(pairs), iter(pairs)]
+                    form = forms[len(repr(v)) % 3]
+                    if slot.startswith("tag"):
+                        db.update_all(tags=form)
+                    else:
+                        db.update_all(fields=form)
                 outcome = "accept"
             except (ValueError, TypeError) as e:
                 outcome = "reject:" + type(e).__name__
@@ -170,6 +196,8 @@ class Family:
                 well = ty == "dict"
             else:
                 well = spec[k] == "welltyped"
+            if entry == "update_static_pairs":
+                well = False          # not a mapping
             if not well:
                 nontriv += 1
             where = f"{entry} / {slot} := {rv} ({ty}) [{storage}]"
@@ -188,7 +216,7 @@ class Family:
                                             dict(family="c14", storage=storage, entry=entry, slot=slot, type=ty, value=rv, what=out)))
             elif model is not None:
                 macc = model[k] == "accept"
-                if macc != (out == "accept") and entry not in ("update_static",):
+                if macc != (out == "accept") and entry not in ("update_static", "update_static_pairs"):
                     res.findings.append(Finding("correspondence", f"{where}: implementation {out}, generated predicate says {model[k]}",
                                                 dict(family="c14", storage=storage, entry=entry, slot=slot, type=ty, value=rv, what="model")))
         res.findings = res.findings[:12]
